@@ -59,7 +59,7 @@ func TestDriveC08(t *testing.T) {
 			scfg.File = &configuration.FileSensorConfig{Path: valFile}
 		case "cmd":
 			script := filepath.Join(sub, "read.sh")
-			writeScript(script, fmt.Sprintf("m=$(cat %s 2>/dev/null)\ncase \"$m\" in\n fail) echo oops >&2; exit 3;;\n failnum) echo 0; exit 3;;\n failnum2) cat %s; echo 'read error' >&2; exit 1;;\n garbage) echo abc;;\n digits) echo '503 Service Unavailable';;\n digits2) echo '2 sensors found, none responding';;\n unit) echo \"$(cat %s) mC\";;\n nan) echo nan;;\n inf) echo inf;;\n -inf) echo -inf;;\n empty) ;;\n sleep) sleep 3; cat %s;;\n *) cat %s;;\nesac\n",
+			writeScript(script, fmt.Sprintf("m=$(cat %s 2>/dev/null)\ncase \"$m\" in\n fail) echo oops >&2; exit 3;;\n failnum) echo 0; exit 3;;\n failnum2) cat %s; echo 'read error' >&2; exit 1;;\n garbage) echo abc;;\n blank) echo ' ';;\n crlf) printf '\\r\\n';;\n tab) printf '\\t\\n';;\n digits) echo '503 Service Unavailable';;\n digits2) echo '2 sensors found, none responding';;\n unit) echo \"$(cat %s) mC\";;\n nan) echo nan;;\n inf) echo inf;;\n -inf) echo -inf;;\n empty) ;;\n sleep) sleep 3; cat %s;;\n *) cat %s;;\nesac\n",
 				filepath.Join(sub, "fault"), valFile, valFile, valFile, valFile))
 			scfg.Cmd = &configuration.CmdSensorConfig{Exec: script}
 		}
@@ -67,6 +67,9 @@ func TestDriveC08(t *testing.T) {
 		must(err)
 		writeVal := func(s string) { must(os.WriteFile(valFile, []byte(s), 0644)) }
 		x0 := 20000 + r.Intn(60000)
+		if i%4 == 3 {
+			x0 = -30000 + r.Intn(25000) // a sensor below zero (outdoor, freezer): negative readings are readings
+		}
 		writeVal(strconv.Itoa(x0))
 		v0, err0 := sensor.GetValue()
 		must(err0)
@@ -103,7 +106,7 @@ func TestDriveC08(t *testing.T) {
 						restore = func() { os.Remove(valFile) }
 					}
 				case "cmd":
-					fault = []string{"fail", "garbage", "nan", "inf", "-inf", "empty", "failnum", "failnum2", "digits", "digits2", "unit"}[r.Intn(11)]
+					fault = []string{"fail", "garbage", "nan", "inf", "-inf", "empty", "failnum", "failnum2", "digits", "digits2", "unit", "blank", "crlf", "tab"}[r.Intn(14)]
 					if wantTimeout && k == length/2 {
 						fault = "sleep"
 						timeouts--
@@ -128,6 +131,11 @@ func TestDriveC08(t *testing.T) {
 			}
 			errp := internal.VerifUpdateSensor(sensor)
 			restore()
+			if fault == "" && errp != nil {
+				// the read of a healthy sensor failed all the same (a command can fail on a heavily loaded machine): what is
+				// observed is a failed poll, and it is judged as one
+				fault = "unexpected: " + fmtErr(errp)
+			}
 			a := sensor.GetMovingAvg()
 			fin := !math.IsNaN(a) && !math.IsInf(a, 0)
 			ev := Ev{"ev": "Poll", "fault": fault, "err": errp != nil, "fin": fin, "am": 0, "xlo": 0, "xhi": 0}
